@@ -99,9 +99,13 @@ thread_local! {
     static KNOWN: std::cell::RefCell<Vec<(Vec<u8>, Vec<u8>)>> = const { std::cell::RefCell::new(Vec::new()) };        // (public, private) pairs the harness derived
     static RECENT_ENC: std::cell::RefCell<Option<(Vec<u8>, Vec<u8>)>> = const { std::cell::RefCell::new(None) };     // (recipient public key, file) of the last successful key_encrypt
 }
-/// the harness derived `pk` from `sk`: remembered so that a file can be opened by its rightful recipient before somebody else tries
+// the harness derived `pk` from `sk`: remembered so that a file can be opened by its rightful recipient before somebody else tries
 thread_local! { static INSTABILITY: std::cell::RefCell<Option<String>> = const { std::cell::RefCell::new(None) }; }
 pub fn take_instability() -> Option<String> { INSTABILITY.with(|i| i.borrow_mut().take()) }
+// something every property relies on failed while a case was being set up (e.g. deriving the public key of a random private key): (oracle, detail)
+thread_local! { static SETUP_FAIL: std::cell::RefCell<Option<(String, String)>> = const { std::cell::RefCell::new(None) }; }
+pub fn take_setup_failure() -> Option<(String, String)> { SETUP_FAIL.with(|i| i.borrow_mut().take()) }
+pub fn note_setup_failure(oracle: &str, detail: String) { SETUP_FAIL.with(|i| { let mut i = i.borrow_mut(); if i.is_none() { *i = Some((oracle.to_string(), detail)); } }); }
 fn note_instability(what: &str, a: &StreamResp, b: &StreamResp) {
     if a.res != b.res || a.out != b.out || a.sender != b.sender {
         INSTABILITY.with(|i| { let mut i = i.borrow_mut(); if i.is_none() { *i = Some(format!("{}: the same call on the same thread gave `{}` ({} bytes out) after one sequence of related calls and `{}` ({} bytes out) after another — the result depends on what the thread did before", what, a.res, a.out.len(), b.res, b.out.len())); } });
